@@ -103,7 +103,13 @@ def _replay_w(ashape, bshape, unit):
             m = metric.WeightedLevenshtein(*w)
         got = m.calc_cdist_matrix(A, B)
         want = [[wlev(a, b, *w) for b in B] for a in A]
-        return got.tolist() == want, f"weights(ins,del,sub)={w} cdist({A!r}, {B!r}) = {got.tolist()} expected {want}"
+        if got.tolist() != want:
+            return False, f"weights(ins,del,sub)={w} cdist({A!r}, {B!r}) = {got.tolist()} expected {want}"
+        # real-library probe for the argument-record part of the claim (no narrowing dtype / cutoff): long strings must not wrap around
+        long_a, long_b = "A" * 300, "C" * 400
+        lg = m.calc_cdist_matrix([long_a], [long_b, long_a])
+        lw = [[wlev(long_a, long_b, *w), 0]]
+        return [[int(v) for v in row] for row in lg.tolist()] == lw, f"weights={w}: distance between 300 x 'A' and 400 x 'C' reported as {lg.tolist()}, expected {lw}"
     return replay
 
 
@@ -214,7 +220,8 @@ def conditions(tier):
     out = []
     T = tier == "thorough"
     wmax = 5 if T else 3
-    shapes = [((1,), (1,)), ((2,), (1,)), ((1,), (2,)), ((2,), (2,)), ((0,), (2,)), ((2,), (0,)), ((2, 1), (1, 2)), ((1, 1), (2,))]
+    shapes = [((1,), (1,)), ((2,), (1,)), ((1,), (2,)), ((2,), (2,)), ((0,), (2,)), ((2,), (0,)), ((2, 1), (1, 2)), ((1, 1), (2,)),
+              ((1,), (1, 2)), ((2,), (1, 1, 0))]          # fewer anchors than comparisons and vice versa
     if T:
         shapes += [((3,), (2,)), ((2,), (3,)), ((3,), (3,)), ((2, 2), (2, 2))]
     for a, b in shapes:
